@@ -75,6 +75,11 @@ type protoDecoder struct {
 	passNum              uint // number of file reads
 }
 
+// PassNum returns the number of complete passes over the ammo file.
+func (d *protoDecoder) PassNum() uint {
+	return d.passNum
+}
+
 func (d *protoDecoder) LoadAmmo(ctx context.Context, scan func(ctx context.Context) (DecodedAmmo, error)) ([]DecodedAmmo, error) {
 	passes := d.config.Passes
 	limit := d.config.Limit
